@@ -886,3 +886,22 @@ Proof.
         etransitivity; [apply Permutation_app_comm|]. reflexivity.
   - apply sort_by_perm.
 Qed.
+
+(** * The supplied newline *)
+
+Theorem nl_only_when_missing fs :
+  match last_opt fs with Some f => ends_nl (f_rest f) | None => true end = true -> nl fs = fs.
+Proof.
+  destruct (list_snoc_cases fs) as [->|(a & f & ->)]; [reflexivity|].
+  rewrite last_opt_snoc. intros H. unfold nl. rewrite map_last_snoc. unfold add_nl. now rewrite H.
+Qed.
+
+Theorem nl_text fs :
+  concat (map field_text (nl fs)) = concat (map field_text fs)
+  \/ concat (map field_text (nl fs)) = concat (map field_text fs) ++ [LF].
+Proof.
+  destruct (list_snoc_cases fs) as [->|(a & f & ->)]; [now left|].
+  unfold nl. rewrite map_last_snoc, !map_app, !concat_app. cbn [map concat]. rewrite !app_nil_r.
+  unfold add_nl. destruct (ends_nl (f_rest f)); [now left|right].
+  unfold field_text. cbn [f_comment f_name f_rest]. now rewrite <- !app_assoc.
+Qed.
